@@ -1087,6 +1087,7 @@ pub fn explore(cfg: &ExploreCfg, findings: &Findings, deadline: Option<std::time
     st.states = 1;
     st.states_per_level.push(1);
     let mut level = 0usize;
+    let mut last_rate: Option<f64> = None;
     st.fixpoint = false;
     while !frontier.is_empty() && level < cfg.max_len {
         if let Some(dl) = deadline {
@@ -1106,6 +1107,15 @@ pub fn explore(cfg: &ExploreCfg, findings: &Findings, deadline: Option<std::time
                 }
             }
         }
+        // do not start a level that, at the rate measured on the previous one, cannot finish before the cap
+        if let (Some(dl), Some(rate)) = (deadline, last_rate) {
+            let remaining = dl.saturating_duration_since(std::time::Instant::now()).as_secs_f64();
+            if items.len() as f64 * rate > remaining * 1.5 {
+                level -= 1;
+                break;
+            }
+        }
+        let level_t0 = std::time::Instant::now();
         let timing = std::env::var("ZKV_TIMING").is_ok();
         let done: Vec<Result<Option<(Judged, Option<Box<dyn Backend>>)>, String>> = par_map(&items, ncpu(), |_, &(ni, oi, kind)| {
             let node = &frontier[ni];
@@ -1201,6 +1211,9 @@ pub fn explore(cfg: &ExploreCfg, findings: &Findings, deadline: Option<std::time
                     next_frontier.push(Node { model: s.model_next, hist: h, live, alive });
                 }
             }
+        }
+        if !items.is_empty() {
+            last_rate = Some(level_t0.elapsed().as_secs_f64() / items.len() as f64);
         }
         st.max_depth = level;
         st.states_per_level.push(next_frontier.len() as u64);
@@ -1355,7 +1368,7 @@ impl TreeProp {
         plans.push(ExploreCfg {
             focus: f, depth: 3, ops: ops3a,
             backends: vec![(Kind::Full, 12), (Kind::Optimal, 12), (Kind::Pm, if q { 1 } else { 2 }), (Kind::Rln, if q { 1 } else { 2 })],
-            nodedup_len: 2, max_len: if q { 2 } else { 5 },
+            nodedup_len: 2, max_len: if q { 2 } else { 4 },
             positions: all(3), full_obs: true, label: "depth3.value-a".into(),
         });
         let ops3b = alphabet(3, &[1, 2], with_batch, with_plain, &extra);
@@ -1454,10 +1467,11 @@ impl Prop for TreeProp {
     fn explore(&self, ctx: &Ctx, findings: &Findings, ev: &mut Evidence) -> Result<(), String> {
         let mut total = ExploreStats::default();
         let mut runs = vec![];
-        let budget = std::time::Duration::from_secs(ctx.tier.pick(100, 1500));
+        // wall-clock cap per plan (a cap that is hit is reported, the run is then not called exhaustive)
+        let budget = std::time::Duration::from_secs(ctx.tier.pick(60, 600));
         let mut capped = vec![];
         for plan in self.plans(ctx.tier) {
-            let dl = ctx.start + budget;
+            let dl = std::time::Instant::now() + budget;
             let t0 = std::time::Instant::now();
             let s = explore(&plan, findings, Some(dl))?;
             let hit = !s.fixpoint && s.max_depth < plan.max_len;
